@@ -2,6 +2,7 @@
 from __future__ import annotations
 
 import ast
+import copy
 import os
 from typing import Dict, List, Optional, Tuple
 
@@ -180,6 +181,111 @@ def grammar_rule(P: Project, R: Report, module: str, rule: str, label: str) -> i
     return n
 
 
+def _slice(stmts, names):
+    """The statements that mention one of `names`, with the control structure around them."""
+    out = []
+    for s in stmts:
+        if not any(isinstance(n, ast.Name) and n.id in names for n in ast.walk(s)):
+            continue
+        if isinstance(s, (ast.If, ast.For, ast.AsyncFor, ast.While, ast.With, ast.AsyncWith, ast.Try)):
+            c = copy.copy(s)
+            for fld in ("body", "orelse", "finalbody"):
+                if hasattr(c, fld):
+                    blk = _slice(getattr(s, fld), names)
+                    setattr(c, fld, blk or ([ast.copy_location(ast.Pass(), s)] if fld == "body" else []))
+            if isinstance(s, ast.Try):
+                hs = []
+                for h in s.handlers:
+                    h2 = copy.copy(h)
+                    h2.body = _slice(h.body, names) or [ast.copy_location(ast.Pass(), h)]
+                    hs.append(h2)
+                c.handlers = hs
+            out.append(c)
+        else:
+            out.append(s)
+    return out
+
+
+def _session_header_last(P, R, send, hdr, rel):
+    """R5, order: between the store of the session attribute into the header mapping and the POST nothing else can
+    write that key (a copy of configured headers, an update) — otherwise a stale configured value wins over the
+    most recent id."""
+    holder = {ast.unparse(s.targets[0].value) for s in hdr}
+    if len(holder) != 1 or not all(isinstance(s.targets[0].value, ast.Name) for s in hdr):
+        raise AnalysisError(f"{rel}: the session header is stored into something other than one local mapping ({sorted(holder)})")
+    names = set(holder)
+    grew = True
+    while grew:  # the mapping under its other local names (`headers = built`)
+        grew = False
+        for n in walk_local(send.node):
+            if isinstance(n, ast.Assign) and isinstance(n.value, ast.Name) and n.value.id in names:
+                for t in n.targets:
+                    if isinstance(t, ast.Name) and t.id not in names:
+                        names.add(t.id)
+                        grew = True
+    body = _slice(send.node.body, names)
+    SID = "mcp-session-id"
+
+    def ev(stmt, st, an):
+        if isinstance(stmt, (ast.Assign, ast.AugAssign)):
+            tg = stmt.targets if isinstance(stmt, ast.Assign) else [stmt.target]
+            for t in tg:
+                if isinstance(t, ast.Subscript) and isinstance(t.value, ast.Name) and t.value.id in names:
+                    k = t.slice
+                    if isinstance(k, ast.Constant):
+                        if str(k.value).lower() == SID:
+                            return "sid:" + ast.unparse(stmt.value)
+                        continue
+                    kt = subst_text(k, st)
+                    raw = ast.unparse(k)
+                    spared = any(SID in l.lower() and (raw in l or kt in l) and (" != " in l or " not in " in l) for l in st.lits)
+                    if not spared:
+                        return f"touch:{ast.unparse(t)} = {ast.unparse(stmt.value)[:40]}"
+                if isinstance(t, ast.Name) and t.id in names and isinstance(stmt, ast.AugAssign):
+                    return f"touch:{ast.unparse(stmt)[:60]}"
+                if isinstance(t, ast.Name) and t.id in names and not (isinstance(stmt.value, ast.Name) and stmt.value.id in names):
+                    if any(isinstance(n, ast.Name) and n.id in names for n in ast.walk(stmt.value)) and not isinstance(stmt.value, ast.Name):
+                        return f"touch:{ast.unparse(stmt)[:60]}"
+        calls = [c for c in ast.walk(stmt) if isinstance(c, ast.Call)] if isinstance(stmt, (ast.Expr, ast.Assign, ast.Return, ast.AnnAssign)) else []
+        for c in calls:
+            if isinstance(c.func, ast.Attribute) and isinstance(c.func.value, ast.Name) and c.func.value.id in names and c.func.attr in ("update", "__setitem__", "pop", "clear"):  # setdefault cannot replace a key that is there
+                return f"touch:{ast.unparse(c)[:60]}"
+        return None
+
+    def cev(call, st, an):
+        if call_name(call).endswith((".post", ".stream", ".request")):
+            h = kwarg(call, "headers")
+            return "post:" + (ast.unparse(h) if h is not None else "<none>")
+        return None
+
+    an, out = run_paths(ast.Module(body=body, type_ignores=[]), event_of=cev, stmt_event_of=ev, fallible=False)
+    ends = list(out.normal) + [st for st, _n in out.ret] + [st for st, _t, _n in out.exc]
+    posted = 0
+    seen = set()
+    for st in ends:
+        evs = list(st.events)
+        pi = next((i for i, e in enumerate(evs) if e.startswith("post:")), None)
+        if pi is None:
+            continue
+        posted += 1
+        sent = evs[pi][5:]
+        pre = [e for e in evs[:pi] if e.startswith(("sid:", "touch:"))]
+        has_sid = "self._session_id" in st.lits or "self._session_id is not None" in st.lits
+        key = (tuple(pre), has_sid, sent)
+        if key in seen:
+            continue
+        seen.add(key)
+        R.ob("R5", "the POST sends the mapping the session header was stored into", sent in names, f"{rel}:{send.node.lineno}", f"the request is sent with headers={sent}, the session id was stored into {sorted(names)}")
+        if not has_sid:
+            continue
+        last_sid = max((i for i, e in enumerate(pre) if e.startswith("sid:")), default=None)
+        later = [e[6:] for e in pre[last_sid + 1:]] if last_sid is not None else []
+        R.ob("R5", "with a session id at hand the header is stored, and nothing that can write the same key follows before the POST", last_sid is not None and not later, f"{rel}:{hdr[0].lineno}",
+             (f"after `{ast.unparse(hdr[0])}` the mapping is written again by `{later[0]}` before the request goes out: a configured or stale Mcp-Session-Id replaces the most recent one" if later else "a path reaches the POST with a session id known but without the header stored"),
+             sample=f"R5 header writes before the POST, in order: {[e[:50] for e in pre]}")
+    R.need(posted >= 1, "anchor: no path of the header slice reaches the POST")
+
+
 def check(P: Project, R: Report) -> None:
     R.rule("R1", "terminal accounting: on every path of the per-message send routine after the POST was issued for a message with an id, at least one server message was delivered or exactly one terminal message carrying the request's id was synthesised; a branch whose only action may deliver nothing needs a fallback synthesis; error exits synthesise exactly once")
     R.rule("R2", "SSE grammar table: each line recogniser accepts `data:`/`event:` with and without the optional space and ignores comments/id/retry; an event without an event field is dispatched as the default type `message`")
@@ -347,6 +453,7 @@ def check(P: Project, R: Report) -> None:
     hdr = [s for s in walk_local(send.node) if isinstance(s, ast.Assign) and isinstance(s.targets[0], ast.Subscript) and isinstance(s.targets[0].slice, ast.Constant) and str(s.targets[0].slice.value).lower() == "mcp-session-id"]
     R.need(hdr, "anchor: the send routine no longer sets the Mcp-Session-Id header")
     R.ob("R5", "header value is the session attribute read at send time", all(ast.unparse(s.value) == "self._session_id" for s in hdr), f"{rel}:{hdr[0].lineno}", f"{[ast.unparse(s.value) for s in hdr]}", sample="R5 headers['Mcp-Session-Id'] = self._session_id (per message)")
+    _session_header_last(P, R, send, hdr, rel)
     setters = [f.fq for f in P.funcs.values() for s in walk_local(f.node) if isinstance(s, ast.Assign) and any(ast.unparse(t) == "self._session_id" for t in s.targets) and f.cls is ci and f.name != "__init__"]
     R.ob("R5", "only the send routine updates the session id", set(setters) == {send.fq}, rel, f"{sorted(set(setters))}")
     for kind, st, node in exits:
